@@ -146,6 +146,7 @@ type SkelOpt struct {
 	Branches bool            // report continue / break as Cont / Brk
 	ArgCalls map[string]bool // calls reported with their argument text: Call "name(args)"
 	Decls    bool            // report `var x T` / `var x = e` of a name in Assigns as Assign "x" "var ..." (where a variable is re-created matters in a loop)
+	Returns  bool            // report what a return statement returns: Assign "return" "<results>" in front of Ret (an error swallowed vs passed on)
 }
 
 func isLockCall(name string) bool {
@@ -335,6 +336,13 @@ func (f *File) stmt(s ast.Stmt, o SkelOpt) []string {
 		var out []string
 		for _, r := range x.Results {
 			out = append(out, f.exprEvents(r, o)...)
+		}
+		if o.Returns && len(x.Results) > 0 {
+			var rs []string
+			for _, r := range x.Results {
+				rs = append(rs, f.Src(r))
+			}
+			out = append(out, "Assign "+Q("return")+" "+Q(strings.Join(rs, ", ")))
 		}
 		return append(out, "Ret")
 	case *ast.BlockStmt:
